@@ -432,7 +432,7 @@ class C05(Property):
 
     def cases(self, rng: random.Random, tier: str, deep: bool) -> Iterator[Dict[str, Any]]:
         n_random = 8000 if deep else 1900
-        n_directed = 6000 if deep else 1200
+        n_directed = 6000 if deep else 1000
 
         def with_perms(case: Dict[str, Any], small: bool = False) -> Dict[str, Any]:
             n = len(case["ps"])
@@ -443,7 +443,7 @@ class C05(Property):
             else:
                 case["perms"] = "all" if n <= 3 else 6
             return case
-        for _ in range(2500 if deep else 500):
+        for _ in range(2500 if deep else 400):
             yield with_perms(self.record_case(rng))
         for _ in range(n_directed):
             yield with_perms(self.directed_case(rng))
